@@ -9,7 +9,7 @@ EXPLANATION = ("Real DbaComputation objects; every table entry is a symbolic int
                "call the assignment held by all computations at that moment must have every constraint entry below infinity "
                "(one query per path).")
 ASSUMPTIONS = [
-    "infinity = 10000 (default); entries are integers in [0, 20000]; numpy storage replaced by object arrays",
+    "infinity parameter 10000 (default), and 100 on the pair / chain-3 jobs; entries are integers in [0, 2*infinity]; numpy storage replaced by object arrays",
     "max_distance is chosen in {diameter, diameter + 1}",
     "runs are truncated when a computation reaches 8 cycles: the claim covers finishes observed within that bound",
     "delivery model: per-channel FIFO interleavings (sleep-set reduced) on the pair, canonical schedule on 3-variable graphs in quick",
@@ -44,9 +44,9 @@ def _ring7(kind):
 
 def jobs(tier):
     out = [
-        {"name": "pair-d2", "spec": spec("pair", "min"), "fixed": False},
+        {"name": "pair-d2", "spec": spec("pair", "min"), "fixed": False, "inf_choice": True},
         {"name": "pair-d3", "spec": spec("pair", "min", dom=3), "fixed": False},
-        {"name": "chain3-d2-fixed", "spec": spec("chain3", "min"), "fixed": True},
+        {"name": "chain3-d2-fixed", "spec": spec("chain3", "min"), "fixed": True, "inf_choice": True},
         {"name": "triangle-d2-fixed", "spec": spec("triangle", "min"), "fixed": True},
     ]
     # long cycle (7 computations, diameter 3): pinned hard tables, the 7 initial values free, later ties broken by the first
@@ -71,7 +71,8 @@ def jobs(tier):
 def run(eng, p):
     rnd = begin(eng, random_modules=["pydcop.algorithms.dba", "pydcop.infrastructure.computations"])
     rnd.free_choices = p.get("free_choices")
-    INF = 10000
+    # the value marking a violated constraint is a parameter of the algorithm (default 10000)
+    INF = eng.pick([10000, 100], "infinity") if p.get("inf_choice") else 10000
     inst = Instance(eng, p["spec"], lo=0, hi=2 * INF)
     d = DIAM[p["spec"]["name"]]
     md = eng.pick([d, d + 1], "max_distance")
